@@ -79,6 +79,11 @@ fn run_cs(s: &str, a: usize, b: usize) -> (String, String) {
     let mut verdict = String::from("ok");
     let mut fail = |m: String| if verdict == "ok" { verdict = format!("FAIL {}", m) };
     if !should { fail("Span::new accepted unordered or non-boundary offsets".into()); return ("some".into(), verdict); }
+    // the other constructor of the same span: Position::span
+    match catch(|| { let p = Position::new(s, a).unwrap(); let q = Position::new(s, b).unwrap(); let sp = p.span(&q); (sp.start(), sp.end(), sp.as_str().to_string()) }) {
+        Ok((x, y, t)) => { if (x, y) != (a, b) || t != s[a..b] { fail(format!("Position::span gives {}..{} {:?}", x, y, t)); } }
+        Err(_) => fail("Position::span panicked on ordered positions".into()),
+    }
     let ls = catch(|| span.lines_span().map(|x| (x.start(), x.end())).collect::<Vec<_>>());
     // spec: consecutive lines meeting the closed byte range [a,b] clipped to [0,len)
     let want: Vec<(usize, usize)> = spec_lines(s).into_iter().filter(|(x, y)| x < y && *x <= b && *y > a && *x < s.len()).collect();
@@ -115,7 +120,30 @@ fn run_cs(s: &str, a: usize, b: usize) -> (String, String) {
     (format!("lines={} {}", lss, es), verdict)
 }
 
+/// `Span::get(x..y)` of the span a..b: a sub-span, taken in the span's own text
+fn run_cg(s: &str, a: usize, b: usize, x: usize, y: usize) -> (String, String) {
+    let span = match Span::new(s, a, b) { Some(sp) => sp, None => return ("nospan".into(), "ok".into()) };
+    let should = x <= y && y <= b - a && s.is_char_boundary(a + x) && s.is_char_boundary(a + y);
+    match catch(|| span.get(x..y).map(|g| (g.start(), g.end(), g.as_str().to_string(), g.get_input().len()))) {
+        Ok(Some((p, q, t, il))) => {
+            let v = if !should { format!("FAIL Span::get({}..{}) of the span {}..{} returned {}..{}: the range is not a span inside it", x, y, a, b, p, q) }
+                else if (p, q) != (a + x, a + y) || t != s[a + x..a + y] || il != s.len() { format!("FAIL Span::get({}..{}) of the span {}..{} returned {}..{} {:?}", x, y, a, b, p, q, t) }
+                else { "ok".into() };
+            (format!("some {}-{}", p, q), v)
+        }
+        Ok(None) => ("none".into(), if should { format!("FAIL Span::get({}..{}) of the span {}..{} rejected a sub-span on boundaries", x, y, a, b) } else { "ok".into() }),
+        Err(_) => ("panic".into(), "FAIL Span::get panicked".into()),
+    }
+}
+
 fn eval_line(l: &str) -> (String, String) {
+    let w6: Vec<&str> = l.split_whitespace().collect();
+    if w6.len() == 6 && w6[0] == "CG" {
+        let s = match unhexs(w6[1]) { Some(s) => s, None => return ("bad-op".into(), "ok".into()) };
+        let n: Vec<usize> = w6[2..].iter().filter_map(|t| t.parse().ok()).collect();
+        if n.len() != 4 { return ("bad-op".into(), "ok".into()); }
+        return run_cg(&s, n[0], n[1], n[2], n[3]);
+    }
     let w: Vec<&str> = l.split_whitespace().collect();
     if w.len() != 4 { return ("bad-op".into(), "ok".into()); }
     let s = match unhexs(w[1]) { Some(s) => s, None => return ("bad-op".into(), "ok".into()) };
@@ -176,7 +204,15 @@ fn main() {
                     if s.len() >= 2 { v.push((s.len(), 0)); v.push((1, s.len() + 1)); if let Some(nb) = (0..s.len()).find(|i| !s.is_char_boundary(*i)) { v.push((0, nb)); v.push((nb, s.len())); } }
                     v
                 } else { (0..8).map(|_| { let a = *rng.pick(&bounds); let b = *rng.pick(&bounds); (a.min(b), a.max(b)) }).collect() };
-                for (a, b) in pairs { let l = format!("CS {} {} {}", h, a, b); let (i, v) = eval_line(&l); out.push(l, i, v); }
+                for (a, b) in pairs.iter().cloned() { let l = format!("CS {} {} {}", h, a, b); let (i, v) = eval_line(&l); out.push(l, i, v); }
+                // sub-spans: every range up to one byte past the END OF THE INPUT (so ranges that leave the span but stay in the input are there)
+                for (a, b) in pairs.iter().cloned().filter(|(a, b)| a <= b && *b <= s.len() && s.is_char_boundary(*a) && s.is_char_boundary(*b)) {
+                    if exhaustive && s.chars().count() > 3 { continue; }
+                    let lim = s.len() - a + 1;
+                    let subs: Vec<(usize, usize)> = if exhaustive { let mut v = vec![]; for x in 0..=lim { for y in 0..=lim { if x <= y + 1 { v.push((x, y)); } } } v }
+                        else { (0..4).map(|_| { let x = rng.range(0, lim); let y = rng.range(0, lim); (x.min(y), x.max(y)) }).collect() };
+                    for (x, y) in subs { let l = format!("CG {} {} {} {} {}", h, a, b, x, y); let (i, v) = eval_line(&l); out.push(l, i, v); }
+                }
             }
             let samples: Vec<String> = out.ops.iter().step_by((out.ops.len() / 6).max(1)).take(6).cloned().collect();
             let stats = format!("{{\"evaluations\":{},\"strings\":{},\"exhaustive_strings\":{},\"exhaustive_max_chars\":{},\"alphabet\":\"a LF CR TAB e-acute(2 bytes) U+55E8(3 bytes)\",\"random_strings\":{},\"strings_with_newline_and_multibyte\":{},\"length_histogram\":{:?},\"samples\":{:?}}}",
